@@ -214,6 +214,8 @@ def build_def_declared(d, name='f', reregister=False):
         if p.get('hidden'):
             func = specs.inject(p['name'], yaqltypes.Context())(func)
             continue
+        if p.get('undeclared'):
+            continue        # typed by yaql from the name and the default
         vt = make_type(p['type'], p.get('nullable', False),
                        p.get('lazy', False))
         func = specs.parameter(p['name'], vt, alias=p.get('alias'))(func)
